@@ -247,6 +247,13 @@ fn collect(state: &State, possible_cycles: &PossibleCycles) {
 
     let _drop_guard = DropGuard { state };
 
+    // A collection may be started from a finalizer or a destructor run by Cc::drop (outside of collections),
+    // which has set the finalizing/dropping flags. Reset them for the duration of this collection,
+    // so that state.is_tracing() returns the right value while tracing
+    #[cfg(feature = "finalization")]
+    let _finalizing_guard = replace_state_field!(finalizing, false, state);
+    let _dropping_guard = replace_state_field!(dropping, false, state);
+
     #[cfg(feature = "finalization")]
     for _ in 0..10 {
         // Limit to 10 executions. A collection usually completes in 2 executions, so passing
